@@ -4,6 +4,7 @@ import Upa.Impl.Canon
 import Upa.Impl.Rep
 import Upa.Impl.FilePath
 import Upa.Impl.SetRepApi
+import Upa.Impl.ParseRep
 import Upa.Spec.Api
 import Upa.Spec.Form
 /-
@@ -492,9 +493,40 @@ def rawRepStr (r : Rep) : String :=
 def updateRep (r : Rep) (ser : List Nat) : Rep :=
   if ser.isEmpty then stripTrailingSpacesRep (clearPart r QUERY) else writePartFlag r QUERY ser
 
+/-- a `parse` step: the operational model of the parser driving `url_serializer` (Impl/ParseRep.lean) on the input
+    and the raw representation of the base must give the raw representation the C++ object has afterwards (`-` =
+    the parse failed), and that must be a representation of the record the record-level parser computes -/
+def parserepStep (idna : Idna) (enc units ok before after : String) : String :=
+  let e := parseEnc enc
+  let us := parseUnits units
+  let baseR : Option Rep := if before == "-" then none else parseRawRep (before.splitOn " ")
+  if before != "-" && baseR.isNone then "BADSTEP" else
+  let okC := ok == "1"
+  let r := parseRep idna e us baseR
+  let uBase := baseR.map Rep.toRecord
+  match baseR with
+  | some b => if (layout b.toRecord).fill != b.fill then s!"BADSTATE base is not a layout: record gives {rawRepStr (layout b.toRecord)}" else
+    parserepCmp idna e us okC r uBase after
+  | none => parserepCmp idna e us okC r uBase after
+where
+  parserepCmp (idna : Idna) (e : Enc) (us : List Nat) (okC : Bool) (r : Option Rep) (uBase : Option Url) (after : String) : String :=
+    let u' := parse idna e us uBase
+    match r, okC with
+    | none, false => if u'.isSome then "RECORD-MISMATCH the record-level parser succeeds" else "ok"
+    | some r, true =>
+      if some r != parseRawRep (after.splitOn " ") then s!"MISMATCH model={rawRepStr r}"
+      else match u' with
+        | some u => if r.fill != (layout u).fill then s!"RECORD-MISMATCH layout-of-record={rawRepStr (layout u)}" else "ok"
+        | none => "RECORD-MISMATCH the record-level parser fails"
+    | some r, false => s!"MISMATCH model parses: {rawRepStr r}"
+    | none, true => "MISMATCH model fails"
+
 def setrepStep (idna : Idna) (line : String) : String :=
   match line.splitOn " | " with
   | [op, before, after] =>
+    match op.splitOn " " with
+    | ["parse", _, enc, units, ok] => parserepStep idna enc units ok before after
+    | _ =>
     match parseRawRep (before.splitOn " "), parseRawRep (after.splitOn " "), op.splitOn " " with
     | some b, some a, [kind, sname, enc, units, ok] =>
       let okC := ok == "1"
